@@ -24,6 +24,9 @@ RULE = ("random molecules glued from 73 FG-rich fragments (carbonyls, esters, am
         "hydrogens written explicitly on none / some / all atoms; node ids contiguous / offset / sparse / negative / shuffled "
         "insertion order (the D16 situation); configuration = the default list (70%) or a generated list of 3-8 patterns with random "
         "group_atoms and anti-patterns (25%), or (5%) one of four small configurations inside the input class of the known finding KF-C05-descendant; "
+        "plus a family of small hetero rings (3-6 members, O/N/S in the ring, substituents on ring atoms), each in 3 different SMILES writings / adjacency "
+        "orders, with user configurations of chain patterns of depth 1-4 from a hetero anchor (a deep pattern and its prefixes as less specific groups); "
+        "about 12% of the user configurations give two groups the same name (the checker then runs on unique labels and on every reading of the reported names); "
         "require_implicit_hydrogen both ways. Checks: 'spec' = every clause with 'no CHILD witnessed' (must hold for every configuration), 'descendant' = the full "
         "statement 'no DESCENDANT witnessed' (run on every case, generated configurations included), 'descendant_unattributed' = a descendant failure "
         "that the kernel cannot attribute to KF-C05-descendant (configuration outside kf_descendant_classb, or model != implementation): always a violation. non-trivial = at least one group reported; "
@@ -68,13 +71,42 @@ def gen_case(rng, default_p=0.7, kf_p=0.05):
             # carry the same tuple of names -- an answer must not depend on what was asked before
             for i, sp in enumerate(specs):
                 sp["name"] = "g%d" % i
+        if rng.random() < 0.12:
+            fc.dup_names(rng, specs)        # two groups with the same name (nothing in FGConfig forbids it)
     req_h = rng.random() < 0.6
     return {"graph": g, "specs": specs, "req_h": req_h, "scheme": scheme, "hmode": hmode, "kind": kind}
 
 
+def gen_ring_cases(rng, k=3):
+    """one small hetero ring (3-6 members, O / N / S in the ring, substituents on ring atoms) in k different SMILES
+    writings (different node numbering and adjacency order), one of them also rebuilt by gens.reid; with a user
+    configuration of chain patterns of depth 1-4 from a hetero anchor (a deep pattern and its shorter prefixes)"""
+    from fgutils.parse import parse
+    g0 = fc.hetero_ring(rng)
+    hetero = sorted(set(d["symbol"] for _, d in g0.nodes(data=True) if d["symbol"] in ("O", "N", "S")))
+    specs = fc.chain_configs(rng, hetero)
+    if rng.random() < 0.15:
+        fc.dup_names(rng, specs)
+    req_h = rng.random() < 0.5
+    out = []
+    for j in range(k):
+        text = fc.write_smiles(g0, rng)
+        g = parse(text)
+        scheme = "smiles"
+        if j == k - 1 and rng.random() < 0.7:
+            g, scheme, _ = gens.reid(rng, g)
+        out.append({"graph": g, "specs": [dict(x) for x in specs], "req_h": req_h, "scheme": scheme, "hmode": "none",
+                    "kind": "hetero-ring", "text": text})
+    return out
+
+
 def generate(seed, tier, ncases=None):
-    n = ncases or (400 if tier == "quick" else 10000)
+    quick = tier == "quick"
+    n = ncases or (300 if quick else 8000)
+    n_rings = max(2, (ncases // 12) if ncases else (25 if quick else 700))
     cases = [gen_case(lib.rng_for(seed, ID, i)) for i in range(n)]
+    for j in range(n_rings):
+        cases.extend(gen_ring_cases(lib.rng_for(seed, ID, 700000 + j)))
     attach_outputs(cases)
     for c in cases:
         yield c
@@ -119,6 +151,21 @@ def corpus():
         yield _c(s)
         yield _c(s, req_h=False)
     yield _c("CC(=O)OC", specs=[{"name": "carbonyl-AE", "pattern": "C(=O)(OR)C", "group_atoms": [0, 1, 2, 4]}], req_h=False)
+    # a chain pattern of depth 3 from the oxygen, a ring through the oxygen's neighbour, two writings (the first makes a
+    # matcher that does not restore its used-atom set per neighbour permutation miss the embedding)
+    chain = [{"name": "a", "pattern": "CO"}, {"name": "b", "pattern": "CCO"}, {"name": "c", "pattern": "CCCO"}]
+    for smi in ["CC1(C)OC1", "C1OC1(C)C", "O1CC1(C)C", "CC1(C)CO1"]:
+        yield _c(smi, specs=[dict(x) for x in chain], req_h=False, kind="corpus-ring")
+        yield _c(smi, specs=[dict(x) for x in chain], req_h=True, kind="corpus-ring")
+    yield _c("CC1(C)OC1", specs=[{"name": "a", "pattern": "RO"}, {"name": "b", "pattern": "RCCCO"}, {"name": "c", "pattern": "OCCN"}], kind="corpus-ring")
+    # two groups with the same name
+    yield _c("CC(=O)OC", specs=[{"name": "carbonyl", "pattern": "C=O"}, {"name": "acyl", "pattern": "RC(=O)OR", "group_atoms": [1, 2, 3]},
+                                {"name": "acyl", "pattern": "RC(=O)N(R)R", "group_atoms": [1, 2, 3]}], kind="corpus-dupnames")
+    yield _c("CC(=O)N(C)C", specs=[{"name": "carbonyl", "pattern": "C=O"}, {"name": "acyl", "pattern": "RC(=O)OR", "group_atoms": [1, 2, 3]},
+                                   {"name": "acyl", "pattern": "RC(=O)N(R)R", "group_atoms": [1, 2, 3]}], kind="corpus-dupnames")
+    yield _c("COC(=O)N(C)C", specs=[{"name": "carbonyl", "pattern": "C=O"}, {"name": "acyl", "pattern": "RC(=O)OR", "group_atoms": [1, 2, 3]},
+                                    {"name": "acyl", "pattern": "RC(=O)N(R)R", "group_atoms": [1, 2, 3]},
+                                    {"name": "carbamate", "pattern": "ROC(=O)N(R)R", "group_atoms": [1, 2, 3, 4]}], kind="corpus-dupnames")
     # the witness of C05_descendant_refuted (Props/C05.v): the descendant clause fails, the child clause holds
     yield _c("CC(=O)C", specs=[{"name": "carbonyl", "pattern": "C=O"}, {"name": "acyl", "pattern": "RC=O", "group_atoms": [1]},
                                {"name": "ketone", "pattern": "RC(R)=O", "group_atoms": [1, 3]}], req_h=False,
@@ -152,9 +199,41 @@ def model_expr(c):
     return "query default_mapper $cfgs %s $g" % ct.b(c["req_h"])
 
 
+def relabelled_outputs(specs, out, cap=32):
+    """the implementation reports group NAMES; when two groups share a name an entry may stem from either.  The checker
+    identifies groups by name, so it is run on the configuration under unique labels (fc.labels_of) and on every way of
+    reading the reported names as labels (at most `cap` readings); an entry is justified if some reading passes"""
+    import itertools
+    labs = fc.labels_of(specs)
+    if out[0] != "ok":
+        return [out]
+    choices = []
+    for nm, ids in out[1]:
+        cand = [l for s, l in zip(specs, labs) if s["name"] == nm] or [nm]
+        choices.append([(l, ids) for l in cand])
+    outs = []
+    for combo in itertools.islice(itertools.product(*choices), cap):
+        outs.append(("ok", list(combo)))
+    return outs
+
+
 def coq_case(c, out):
     defs = {"g": ct.graph(c["graph"]), "out": fc.answer_term(out)}
     rq = ct.b(c["req_h"])
+    agree = "answer_agreeb (%s) $out" % model_expr(c)
+    if c["specs"] is not None and fc.has_dup_names(c["specs"]):
+        defs["cfgs"] = fc.cfgs_term(c["specs"])                       # real names: what the model must reproduce
+        defs["cfgsL"] = fc.cfgs_term(c["specs"], labelled=True)       # unique labels: what the checker works on
+        rt = "(build_config_tree_from_list default_mapper $cfgsL)"
+        outs = relabelled_outputs(c["specs"], out)
+        for k, o in enumerate(outs):
+            defs["outL%d" % k] = fc.answer_term(o)
+        child = " || ".join("C05_tree_okb false default_mapper %s %s $g $outL%d" % (rt, rq, k) for k in range(len(outs)))
+        full = " || ".join("C05_tree_okb true default_mapper %s %s $g $outL%d" % (rt, rq, k) for k in range(len(outs)))
+        unattr = ("if (%s) then true else match %s with Good tr => if kf_descendant_classb (m_wildcard default_mapper) "
+                  "(m_ignore_case default_mapper) tr then (%s) else false | Bad _ => false end" % (full, rt, agree))
+        return {"defs": defs, "checks": {"agree": agree, "spec": child, "descendant": full, "descendant_unattributed": unattr},
+                "diag": [model_expr(c)]}
     if c["specs"] is None:
         # default configuration: the tree is the kernel-computed constant default_tree_val
         # (Proofs/FGDefaultTree.v: default_tree_ok, default_query_fast_ok)
@@ -162,7 +241,6 @@ def coq_case(c, out):
     else:
         defs["cfgs"] = fc.cfgs_term(c["specs"])
         rt = "(build_config_tree_from_list default_mapper $cfgs)"
-    agree = "answer_agreeb (%s) $out" % model_expr(c)
     return {"defs": defs,
             "checks": {
                 "agree": agree,
@@ -233,7 +311,10 @@ def nontrivial(c, out):
 
 def classes(c, out):
     g = c["graph"]
-    yield "config=" + ("default" if c["specs"] is None else "kf-family" if c["kind"] in ("kf-family", "corpus-descendant") else "generated")
+    yield "config=" + ("default" if c["specs"] is None else "kf-family" if c["kind"] in ("kf-family", "corpus-descendant")
+                       else "chains" if c["kind"] == "hetero-ring" else "generated")
+    if c["specs"] is not None:
+        yield "dup_names=" + ("yes" if fc.has_dup_names(c["specs"]) else "no")
     yield "req_h=%s" % c["req_h"]
     yield "scheme=" + c["scheme"]
     yield "explicit_h=" + c["hmode"]
